@@ -89,3 +89,10 @@ package core_domain
 //@ loop 1 invariant forall i int :: {methodsArray[i]} 0 <= i && i < len(methodsArray) ==> (exists k string :: (k in methodMap) && methodsArray[i] == methodMap[k])
 //@ loop 1 assert len(methodsArray) == len(methodsArray@pre) + 1 && methodsArray[len(methodsArray) - 1] == value
 //@ loop 1 assert forall r int :: {methodsArray[r]} {methodsArray@pre[r]} 0 <= r && r < len(methodsArray@pre) ==> methodsArray[r] == methodsArray@pre[r]
+
+// the member id is derived from the other fields, which stay as they are
+//@ method CodeMember.BuildMemberId
+//@ requires c != nil
+//@ modifies *c
+//@ ensures (*c).AliasPackage == old((*c).AliasPackage) && (*c).Name == old((*c).Name) && (*c).Type == old((*c).Type) && (*c).Structures == old((*c).Structures) && (*c).FunctionNodes == old((*c).FunctionNodes) && (*c).Namespace == old((*c).Namespace) && (*c).FileID == old((*c).FileID) && (*c).DataStructID == old((*c).DataStructID) && (*c).Position == old((*c).Position)
+//@ loop 1 invariant (*c).AliasPackage == old((*c).AliasPackage) && (*c).Name == old((*c).Name) && (*c).Type == old((*c).Type) && (*c).Structures == old((*c).Structures) && (*c).FunctionNodes == old((*c).FunctionNodes) && (*c).Namespace == old((*c).Namespace) && (*c).FileID == old((*c).FileID) && (*c).DataStructID == old((*c).DataStructID) && (*c).Position == old((*c).Position)
